@@ -17,6 +17,14 @@ open ZnVerif.Properties.C18
 
 -- syntax-error part: line table of the lexer, quoted line and caret of the error printer
 #print axioms ZnVerif.Properties.C18Lines.lines_table_partial
+#print axioms ZnVerif.Properties.C18Lines.lines_table
+#print axioms ZnVerif.Properties.C18Lines.lines_table_full_holds
+#print axioms ZnVerif.Properties.C18Lines.lines_table_any_fuel
+#print axioms ZnVerif.Properties.C18Lines.parse_line_records_lines
+#print axioms ZnVerif.Properties.C18Lines.comment_scanner_records_lines
+#print axioms ZnVerif.Properties.C18Lines.string_scanner_records_lines
+#print axioms ZnVerif.Properties.C18Lines.next_token_keeps_lines
+#print axioms ZnVerif.Properties.C18Lines.invariant_at_end
 #print axioms ZnVerif.Properties.C05.display_total
 #print axioms ZnVerif.Properties.C05.quoted_line_is_physical
 #print axioms ZnVerif.Properties.C05.caret_under_offender
